@@ -23,7 +23,7 @@ def clean():
 
 
 def run_check(pid, tier="quick", extra_env=None):
-    env = dict(os.environ)
+    env = dict(os.environ, VERIF_NO_EVIDENCE="1")
     env.update(extra_env or {})
     t = time.time()
     p = sh(f"/venv/bin/python {V}/vcheck.py {pid} --tier {tier} --no-selftest", env=env, cwd=V)
